@@ -193,5 +193,39 @@ theorem right_nest (i : Nat) :
   rw [← e]
   exact ((alignedSpec T1 T2 h1 h2 _).pair pr hpr).2.2.1
 
+omit F1 F2 hc in
+/-- the bars `computeFlameGraphDiff` files under level `k` are exactly generation `k` of the walk, in order -/
+theorem walk_filter_level (n k : Nat) (hk : k < n) :
+    (walkItems (kidsL T1 T2) (kidsR T1 T2) n [rootOf T1 T2]).filter (fun q => q.level == k)
+      = itemLevel (kidsL T1 T2) (kidsR T1 T2) k [rootOf T1 T2] := by
+  have hlev : ∀ i, ∀ q ∈ itemLevel (kidsL T1 T2) (kidsR T1 T2) i [rootOf T1 T2], q.level = i :=
+    fun i q hq => (level_inv T1 T2 h1 h2 i q hq).2.1
+  have hall : ∀ i, i = k → (itemLevel (kidsL T1 T2) (kidsR T1 T2) i [rootOf T1 T2]).filter (fun q => q.level == k)
+      = itemLevel (kidsL T1 T2) (kidsR T1 T2) i [rootOf T1 T2] := by
+    intro i e
+    exact List.filter_eq_self.mpr (fun q hq => by simp [hlev i q hq, e])
+  have hnone : ∀ i, i ≠ k → (itemLevel (kidsL T1 T2) (kidsR T1 T2) i [rootOf T1 T2]).filter (fun q => q.level == k) = [] := by
+    intro i e
+    exact List.filter_eq_nil_iff.mpr (fun q hq => by simp [hlev i q hq, e])
+  unfold walkItems
+  induction n with
+  | zero => omega
+  | succ n ih =>
+    rw [List.range_succ, List.map_append, List.flatten_append, List.filter_append]
+    simp only [List.map_cons, List.map_nil, List.flatten_cons, List.flatten_nil, List.append_nil]
+    by_cases e : k = n
+    · subst e
+      rw [hall k rfl]
+      have : (((List.range k).map (fun i => itemLevel (kidsL T1 T2) (kidsR T1 T2) i [rootOf T1 T2])).flatten).filter
+          (fun q => q.level == k) = [] := by
+        apply List.filter_eq_nil_iff.mpr
+        intro q hq
+        obtain ⟨l, hl, hql⟩ := List.mem_flatten.mp hq
+        obtain ⟨i, hi, rfl⟩ := List.mem_map.mp hl
+        have := List.mem_range.mp hi
+        simp [hlev i q hql]; omega
+      rw [this]; simp
+    · rw [hnone n (fun e' => e e'.symm), ih (by omega)]; simp
+
 end
 end Qryn.Prof
